@@ -225,6 +225,14 @@ QUERIES = {
     'expect_poly': ('StabilizerState', ['PauliPolynomial'], lambda M, s, a: s.expect(a[0])),
     'expect_state': ('StabilizerState', ['StabilizerState1'], lambda M, s, a: s.expect(a[0])),
     'entropy': ('StabilizerState1', [], lambda M, s, a: s.entropy([0])),
+    # region arguments handed over as the caller's own arrays / lists (they must come back untouched)
+    'entropy_mask_first': ('StabilizerState1', ['mask:first'], lambda M, s, a: s.entropy(a[0])),
+    'entropy_mask_most': ('StabilizerState1', ['mask:most'], lambda M, s, a: s.entropy(a[0])),
+    'entropy_mask_all': ('StabilizerState1', ['mask:all'], lambda M, s, a: s.entropy(a[0])),
+    'entropy_index_array': ('StabilizerState1', ['idx:array'], lambda M, s, a: s.entropy(a[0])),
+    'entropy_index_list': ('StabilizerState1', ['idx:list'], lambda M, s, a: s.entropy(a[0])),
+    'entropy_mask_most_pure': ('StabilizerState', ['mask:most'], lambda M, s, a: s.entropy(a[0])),
+    'entropy_mask_all_pure': ('StabilizerState', ['mask:all'], lambda M, s, a: s.entropy(a[0])),
     'sample': ('StabilizerState', [], lambda M, s, a: s.sample(2)),
     'get_prob': ('StabilizerState', ['bits'], lambda M, s, a: s.get_prob(a[0])),
     'density_matrix': ('StabilizerState', [], lambda M, s, a: s.density_matrix),
@@ -260,6 +268,13 @@ INPLACE = ('rotate_by', 'transform_by', 'measure', 'measure_state', 'postselect'
 
 
 def _arg(env, M, N, kind, tag):
+    if kind.startswith('mask:'):
+        pat = {'first': [True] + [False] * (N - 1), 'most': [True] * (N - 1) + [False] if N > 1 else [True], 'all': [True] * N}[kind[5:]]
+        return np.array(pat, dtype=bool)
+    if kind == 'idx:array':
+        return np.array([N - 1, 0] if N > 1 else [0])
+    if kind == 'idx:list':
+        return [N - 1, 0] if N > 1 else [0]
     if kind == 'bits':
         return env.bits(tag + 'bits', (N,))
     if kind in ('PauliListH', 'PauliListH1', 'PauliListC'):
@@ -286,16 +301,17 @@ def h_query(env, N, name):
     recv = make_object(env, M, N, rk, 'recv_') if rk else None
     args = [_arg(env, M, N, k, 'arg%d_' % i) for i, k in enumerate(aks)]
     snap_r = fields(recv) if recv is not None else []
-    snap_a = [fields(a) if not isinstance(a, np.ndarray) else snapshot(a) for a in args]
+    plain = lambda a: isinstance(a, (np.ndarray, list))
+    snap_a = [fields(a) if not plain(a) else snapshot(a) for a in args]
     res = env.run(lambda: call(M, recv, args))
     env.goal('no_exception', b_not(res.raised))
     if recv is not None and name not in INPLACE:
         env.goal('receiver_unchanged', unchanged(snap_r, fields(recv)))
     for i, a in enumerate(args):
-        env.goal('argument%d_unchanged' % i, unchanged(snap_a[i], fields(a) if not isinstance(a, np.ndarray) else snapshot(a)))
+        env.goal('argument%d_unchanged' % i, unchanged(snap_a[i], fields(a) if not plain(a) else snapshot(a)))
     # results of queries share no memory with receiver / arguments (a later write to the result must not leak back)
     if res.value is not None and name not in INPLACE and name not in ('stabilizers', 'getitem', 'neg', 'rmul', 'as_polynomial'):
-        parties = ([recv] if recv is not None else []) + args
+        parties = ([recv] if recv is not None else []) + [a for a in args if not isinstance(a, list)]
         env.goal('result_shares_no_memory', all(shares_nothing_arrays(res.value, p) for p in parties))
 
 
@@ -460,6 +476,8 @@ def jobs(tier):
             J.append(dict(harness=('c17', 'h_copy_gate_layer'), params=dict(N=N, kind=kind), timeout_s=300, cost=10))
         for name in QUERIES:
             J.append(dict(harness=('c17', 'h_query'), params=dict(N=N, name=name), timeout_s=600, cost=10, max_paths=4000))
+    for name in ('entropy_mask_most_pure', 'entropy_mask_most', 'entropy_index_array'):
+        J.append(dict(harness=('c17', 'h_query'), params=dict(N=3, name=name), timeout_s=600, cost=30, max_paths=4000))
     for N in (1, 2):
         J.append(dict(harness=('c17', 'h_alias_ops'), params=dict(N=N, which='rotate_by_own_row')))
         for r in range(N + 1):
